@@ -37,7 +37,7 @@ fn read_back(img: &Image, path: &str) -> Result<Vec<u8>, String> {
             }
             Ok(data)
         })();
-        std::mem::forget(fs);
+        drop(fs);
         res
     }));
     match r {
